@@ -72,7 +72,7 @@ func evalC05(c *Ctx, cs *Case) {
 	if cs.Kind != "exhaustive" {
 		sp = gen.RandSpelling(r)
 	} else {
-		sp = gen.SixSpellings(cs.Seed)[int(cs.Seed)%6]
+		sp = gen.SixSpellings(cs.Seed)[int(cs.Seed%uint64(6))]
 	}
 	if sp.Heading > 0 && !gen.CanHeading(f) {
 		sp.Heading = 0
